@@ -627,6 +627,21 @@ func (s *Translator) buildInlineProjection(part *QueryPart) (pgsql.Select, error
 		}
 	}
 
+	if len(sqlSelect.From) == 0 && part.Frame != nil {
+		// A projection that references no binding, e.g. `with 1 as x`, still yields one row per input row and
+		// its WHERE may still read the previous part's exports, so it needs the same row source.
+		if hasCTEs := part.Model.CommonTableExpressions != nil && len(part.Model.CommonTableExpressions.Expressions) > 0; hasCTEs {
+			ctes := part.Model.CommonTableExpressions.Expressions
+			sqlSelect.From = []pgsql.FromClause{{
+				Source: ctes[len(ctes)-1].Alias.Name,
+			}}
+		} else if part.Frame.Previous != nil {
+			sqlSelect.From = []pgsql.FromClause{{
+				Source: part.Frame.Previous.Binding.Identifier,
+			}}
+		}
+	}
+
 	sqlSelect.From = append(sqlSelect.From, unwindFromClauses(part.ConsumeUnwindClauses())...)
 
 	for _, projection := range part.projections.Items {
